@@ -50,34 +50,17 @@ func runErrorAtPos(p *core.Program, r *core.Report) {
 			}
 			construct := fk + " reports " + errName
 			pos := p.InsPos(ins)
-			fields := rangingFields(core.Unwrap(c.Call.Args[1]))
-			if fields == nil {
-				if why := errAtPosAudit[errName]; why != "" {
-					r.Audit(rule, construct, pos, why)
-					return
-				}
+			rng := core.Unwrap(c.Call.Args[1])
+			switch ok, shape := rangeAtPos(rng, c, 0); {
+			case ok:
+				r.OK(rule, construct, pos, "From is ps.pos (minus a constant) read at the report, with no parser call in between"+shape)
+			case errAtPosAudit[errName] != "":
+				r.Audit(rule, construct, pos, errAtPosAudit[errName])
+			case shape == "":
 				r.Bad(rule, construct, pos, "the error range is not built from the parser's position at the report (it is a node's range or a value computed elsewhere): when the input ends here the error does not start at the end of the source, is not marked partial, and Enter submits the unfinished code")
-				return
+			default:
+				r.Bad(rule, construct, pos, "the error starts at "+shape+", not at the parser's position at the report: if the input ends between the two (skipped whitespace) the error is not at the end of the source, is not marked partial, and Enter submits the unfinished code")
 			}
-			from := fields[0]
-			if b, ok := from.(*ssa.BinOp); ok && b.Op == token.SUB {
-				if k, isC := constInt(b.Y); isC && k >= 0 {
-					from = b.X
-				}
-			}
-			if ld, ok := from.(*ssa.UnOp); ok && ld.Op == token.MUL {
-				if fa, ok := ld.X.(*ssa.FieldAddr); ok {
-					if nt, f := core.FieldName(fa); nt != nil && nt.Obj().Name() == "parser" && f == "pos" && freshAt(ld, c) {
-						r.OK(rule, construct, pos, "From is ps.pos (minus a constant) read at the report, with no parser call in between")
-						return
-					}
-				}
-			}
-			if why := errAtPosAudit[errName]; why != "" {
-				r.Audit(rule, construct, pos, why)
-				return
-			}
-			r.Bad(rule, construct, pos, "the error starts at "+addrDesc(fields[0])+", not at the parser's position at the report: if the input ends between the two (skipped whitespace) the error is not at the end of the source, is not marked partial, and Enter submits the unfinished code")
 		})
 	}
 	r.Count(rule+" calls of parser.errorp", n)
@@ -85,17 +68,17 @@ func runErrorAtPos(p *core.Program, r *core.Report) {
 
 // freshAt: the load and the call are in one block with no call in between
 // that is handed a *parser (and could move it).
-func freshAt(ld *ssa.UnOp, call *ssa.Call) bool {
+func freshAt(ld ssa.Instruction, call ssa.Instruction) bool {
 	if ld.Block() != call.Block() {
 		return false
 	}
 	between := false
 	for _, ins := range ld.Block().Instrs {
-		if ins == ssa.Instruction(ld) {
+		if ins == ld {
 			between = true
 			continue
 		}
-		if ins == ssa.Instruction(call) {
+		if ins == call {
 			return between
 		}
 		if !between {
@@ -110,4 +93,54 @@ func freshAt(ld *ssa.UnOp, call *ssa.Call) bool {
 		}
 	}
 	return false
+}
+
+// rangeAtPos: the diag.Ranging value rng, as used at instruction at, starts
+// at the parser's current position (minus a constant). It is either a local
+// Ranging literal whose From is ps.pos read just before, or the result of a
+// helper of the package that returns such a literal (ps.posRange()), called
+// just before. The second result describes a From that is something else.
+func rangeAtPos(rng ssa.Value, at ssa.Instruction, depth int) (bool, string) {
+	if depth > 2 {
+		return false, ""
+	}
+	if fields := rangingFields(rng); fields != nil {
+		from := fields[0]
+		if b, ok := from.(*ssa.BinOp); ok && b.Op == token.SUB {
+			if k, isC := constInt(b.Y); isC && k >= 0 {
+				from = b.X
+			}
+		}
+		if ld, ok := from.(*ssa.UnOp); ok && ld.Op == token.MUL {
+			if fa, ok := ld.X.(*ssa.FieldAddr); ok {
+				if nt, f := core.FieldName(fa); nt != nil && nt.Obj().Name() == "parser" && f == "pos" && freshAt(ld, at) {
+					return true, ""
+				}
+			}
+		}
+		return false, addrDesc(fields[0])
+	}
+	call, ok := rng.(*ssa.Call)
+	if !ok {
+		return false, ""
+	}
+	callee := call.Call.StaticCallee()
+	if callee == nil || callee.Blocks == nil || core.PkgPathOf(callee) != pkgParse || !freshAt(call, at) {
+		return false, ""
+	}
+	all, any := true, false
+	core.Instrs(callee, func(ins ssa.Instruction) {
+		ret, ok := ins.(*ssa.Return)
+		if !ok || len(ret.Results) != 1 {
+			return
+		}
+		any = true
+		if ok, _ := rangeAtPos(ret.Results[0], ret, depth+1); !ok {
+			all = false
+		}
+	})
+	if any && all {
+		return true, " (through the helper " + callee.Name() + ")"
+	}
+	return false, ""
 }
